@@ -76,7 +76,8 @@ def build_group(g, wd, tier):
     defs = ["-DCO_VERIF"] + ["-D" + d for d in g.get("defs", [])]
     defs += ["-D" + d for d in g.get("defs_" + tier, [])]
     ctr = " ".join("-include " + os.path.join(VERIF, "contracts", c) for c in g.get("contracts", []))
-    base = "goto-cc -std=c99 %s %s %s" % (" ".join(q(d) for d in defs), incflags(), ctr)
+    base = "goto-cc -std=c99 %s %s -include %s %s" % (" ".join(q(d) for d in defs), incflags(),
+                                                      os.path.join(VERIF, "contracts", "vw_pre.h"), ctr)
     objs = []
     loops = g.get("loops", {})
     # harness TU (may be force-included in front of a repo TU for static functions)
@@ -244,7 +245,7 @@ def run_group(g, tier, root_wd, keep=False):
         if bad:
             raise GroupError("unsound abstraction in group %s: %s" % (g["name"], "; ".join(bad[:5])))
         reach_seen, reach_dead = [], []
-        failed, n, ok = [], 0, 0
+        failed, n, ok, unknown = [], 0, 0, 0
         names = []
         for r in results:
             desc = r.get("description", "")
@@ -256,8 +257,12 @@ def run_group(g, tier, root_wd, keep=False):
                 continue
             n += 1
             names.append(r.get("property", ""))
+            if "loop invariant is preserved" in desc:
+                names.append(r.get("property", "").split(".")[0] + ".loop_invariant_step(legacy)")
             if st == "SUCCESS":
                 ok += 1
+            elif st != "FAILURE":
+                unknown += 1      # UNKNOWN: neither proved nor refuted in this run
             else:
                 loc = r.get("sourceLocation", {})
                 failed.append(dict(property=r.get("property", ""), description=desc, status=st,
@@ -279,6 +284,8 @@ def run_group(g, tier, root_wd, keep=False):
             raise GroupError("vacuous: canary %s is unreachable (contradictory requires / stub?)" % reach_dead)
         if n < g.get("min_obligations", 1):
             raise GroupError("vacuous: only %d obligations" % n)
+        if unknown and not failed:
+            raise GroupError("%d obligations UNKNOWN (undecided) although none failed" % unknown)
         res["status"] = "ok" if not failed else "fail"
         if failed:
             # re-run with trace for the replay artefact
